@@ -185,6 +185,8 @@ def classify(case):
         cl.append("int-index")
     if case.get("from_file") and case["rows"]:
         cl.append("table-read-from-file")
+    if case["rows"] and not case.get("from_file") and any(op["op"] == "replace" and op.get("seed", 1) % 3 == 0 for op in case["program"]):
+        cl.append("replace-text-column-with-dna-encoded-column")
     if case.get("tolist_first") and case["rows"]:
         cl.append("rows-taken-by-tolist-first")
     if case.get("variant") == 2 and case["rows"] and any(k in ("str", "seq", "seq1") for _, k in kinds_of(tname)):
@@ -356,6 +358,11 @@ def check(case, stats=None):
                         # a lazily read table takes replacement values as arrays in the column's own representation (C04/C05 assumption)
                         from bionumpy.string_array import as_string_array
                         arr = as_string_array(list(vals)) if k == "id" else bnp.as_encoded_array(list(vals))
+                    elif n and op["seed"] % 3 == 0:
+                        # the new text handed over as a column that is already encoded with a DNA alphabet (e.g. another table's sequence column)
+                        vals = ["ACGT"[(op["seed"] + i) % 4] * (1 + i % 3) + "GA"[i % 2] for i in range(n)]
+                        arr = bnp.as_encoded_array(list(vals), bnp.DNAEncoding)
+                        op = dict(op, given_as="dna-encoded-column")
                 if n == 0 and not isinstance(arr, np.ndarray):
                     continue
                 new = bnp.replace(T, **{nm: arr})
